@@ -730,6 +730,9 @@ pub fn run_history(ctx: &mut Ctx, src: &mut Source, seed: u64) -> Option<History
     let mut step_idx = 0usize;
     let mut sched = Rng::new(mix(seed, 0x5C4ED));
     let mut rolled_back = false;
+    let mut aborted_by_reopen = false;
+    // tables that got a column added while they held rows (old rows keep the old record layout)
+    let mut widened_tables: Vec<String> = vec![];
     let mut ever_long = false;
     let mut after_checkpoint = false;
     let mut ddl_since_reopen: Vec<&'static str> = vec![];
@@ -912,6 +915,13 @@ pub fn run_history(ctx: &mut Ctx, src: &mut Source, seed: u64) -> Option<History
                 },
             ),
             ("rolled_back", rolled_back.to_string()),
+            ("aborted_by_reopen", aborted_by_reopen.to_string()),
+            (
+                "table_widened",
+                (tname.as_ref().map_or(false, |t| widened_tables.contains(t))
+                    || matches!(op, Op::AddColumn { table, .. } if view_before.tables.get(table).map_or(false, |t| !t.rows.is_empty())))
+                .to_string(),
+            ),
             ("pred_on_toast_col", pred_on_toast_col(op, tname.as_ref().and_then(|t| view_before.tables.get(t))).to_string()),
         ];
         let desc = format!("step {} [s{}] {}", step_idx, s, op.short());
@@ -1125,6 +1135,14 @@ pub fn run_history(ctx: &mut Ctx, src: &mut Source, seed: u64) -> Option<History
 
         if matches!(op, Op::Rollback | Op::RollbackTo(_)) && actual.is_ok() {
             rolled_back = true;
+        }
+        if matches!(op, Op::CloseReopen | Op::DropReopen) && in_txn_before {
+            aborted_by_reopen = true;
+        }
+        if let Op::AddColumn { table, .. } = op {
+            if actual.is_ok() && view_before.tables.get(table).map_or(false, |t| !t.rows.is_empty()) && !widened_tables.contains(table) {
+                widened_tables.push(table.clone());
+            }
         }
         if matches!(op, Op::Checkpoint | Op::PragmaCheckpoint | Op::CloseReopen) {
             after_checkpoint = true;
